@@ -23,6 +23,22 @@ TRUSTED = [
 ]
 
 
+def selfvalidate(ctx, prop):
+    """thorough tier: run this property's part of the mutant / benign-twin / seeded-change corpus on scratch copies.
+    A surviving mutant or a flagged twin means the CHECKER is unreliable: reported as ANALYSIS-ERROR (exit 2), never as a violation."""
+    from . import selftest
+    items = [m for m in selftest.corpus() if m["prop"] == prop]
+    ob = ctx.ob(prop + ".selftest", "checker self-validation: every corpus mutant / adopted seeded change of this property is REFUTED on a scratch copy of the "
+                "current sources and every benign twin HOLDS (scratch copies under $TMPDIR, removed immediately)", 1)
+    from concurrent.futures import ThreadPoolExecutor
+    with ThreadPoolExecutor(max_workers=int(os.environ.get("LSA_JOBS", "16"))) as ex:
+        for m, status, detail in ex.map(selftest.run_one, items):
+            ob.instance("%s (%s)" % (m["id"], m["expect"]), status)
+            if status != "ok":
+                ob.unknown("self-test item %s: %s %s" % (m["id"], status, detail[-200:].replace("\n", " | ")))
+    ctx.stat("selftest_items", len(items))
+
+
 def main(argv=None):
     argv = list(sys.argv[1:] if argv is None else argv)
     tier = os.environ.get("VERIF_TIER", "quick")
@@ -58,6 +74,8 @@ def main(argv=None):
         except report.AnalysisError as e:
             o = ctx.ob(e.ob, "analysis aborted")
             o.unknown(e.reason)
+        if tier == "thorough" and not replay and not os.environ.get("LSA_NO_EVIDENCE"):
+            selfvalidate(ctx, prop)
         code = report.finish(ctx, t0, TRUSTED)
         if replay:
             for o in ctx.obligations:
